@@ -499,3 +499,57 @@ def replay_get_config_path(obligation, model, meta):
             os.environ['HOME'] = old_home
         shutil.rmtree(tmp, ignore_errors=True)
     return {'confirmed': False, 'tried': 5}
+
+
+def replay_precedence(obligation=None, model=None, meta=None):
+    """native: values given through SECTION.FIELD=VALUE options and through an rc file are the values in effect after loading a case the
+    way the command line does it (every argparse default present in the keyword arguments, so un-given flags are there as False / None),
+    with precedence option > file > default; a value given on the command line itself (tf) beats both"""
+    import contextlib
+    import io
+    import logging
+    import os
+    import shutil
+    import tempfile
+    import andes
+    from andes.cli import create_parser
+    logging.getLogger('andes').setLevel(logging.CRITICAL)
+    tmp = tempfile.mkdtemp(prefix='verif_prec_')
+    n = 0
+    try:
+        rc = os.path.join(tmp, 'andes.rc')
+        with open(rc, 'w') as f:
+            f.write('[TDS]\nqrt = 1\nkqrt = 2.5\ntstep = 0.02\nsave_every = 3\n\n[PFlow]\nmax_iter = 17\n\n[System]\nfreq = 50\n')
+        case = andes.get_case('5bus/pjm5bus.xlsx')
+        parser = create_parser()
+        scenarios = [
+            ('options only', ['run', case, '-O', 'TDS.qrt=1', 'TDS.kqrt=1.5', 'PFlow.max_iter=9'], {'TDS.qrt': 1, 'TDS.kqrt': 1.5, 'PFlow.max_iter': 9}),
+            ('rc file only', ['run', case, '@rc'], {'TDS.qrt': 1, 'TDS.kqrt': 2.5, 'TDS.tstep': 0.02, 'TDS.save_every': 3, 'PFlow.max_iter': 17, 'System.freq': 50}),
+            ('option over rc file', ['run', case, '@rc', '-O', 'TDS.kqrt=4.0', 'PFlow.max_iter=5'],
+             {'TDS.qrt': 1, 'TDS.kqrt': 4.0, 'TDS.tstep': 0.02, 'PFlow.max_iter': 5, 'System.freq': 50}),
+            ('command-line tf over option', ['run', case, '--tf', '3.5', '-O', 'TDS.tf=9', 'TDS.qrt=1'], {'TDS.tf': 3.5, 'TDS.qrt': 1}),
+        ]
+        for label, argv, want in scenarios:
+            n += 1
+            use_rc = '@rc' in argv
+            args = vars(parser.parse_args([a for a in argv if a != '@rc']))
+            if use_rc:
+                args['config_path'] = rc
+            for k in ('func', 'filename', 'verbose', 'routine', 'ncpu', 'pool', 'shell', 'profile', 'dime_address'):
+                args.pop(k, None)
+            args['no_output'] = True
+            with contextlib.redirect_stdout(io.StringIO()), contextlib.redirect_stderr(io.StringIO()):
+                ss = andes.load(case, **args)
+            for key, val in want.items():
+                sec, fld = key.split('.')
+                obj = ss if sec == 'System' else ss.__dict__[sec]
+                got = getattr(obj.config, fld)
+                if got != val:
+                    return {'confirmed': True, 'inputs': {'scenario': label, 'command line': ' '.join(argv[2:]), 'rc file': 'TDS: qrt=1, kqrt=2.5, tstep=0.02, save_every=3; PFlow: max_iter=17; System: freq=50'},
+                            'observed': '%s in effect is %r, expected %r' % (key, got, val), 'native_cmd': 'contracts/fn_config.py replay_precedence'}
+    finally:
+        shutil.rmtree(tmp, ignore_errors=True)
+    return {'confirmed': False, 'tried': n}
+
+
+replay_precedence.real_system = True
